@@ -109,7 +109,7 @@ bool apply_content_fault(const Fault &f, Bytes &b, const std::map<u32, Bytes> &a
         for (size_t i = 0; i + 1 < f.a.size(); i += 2) { if (b.empty()) break; size_t off = size_t(u64(f.a[i]) % b.size()); b[off] = rot_byte(b[off], f.a[i + 1]); any = true; }
         return any;
     }
-    if (f.kind == "SETBYTES") { // absolute values: a = [off, val, off, val ...]
+    if (f.kind == "SETBYTES" || f.kind == "CODEROT" || f.kind == "LOOPROT") { // absolute values: a = [off, val, off, val ...]
         bool any = false;
         for (size_t i = 0; i + 1 < f.a.size(); i += 2) { size_t off = size_t(f.a[i]); if (off < b.size()) { b[off] = u8(f.a[i + 1]); any = true; } }
         return any;
